@@ -394,3 +394,22 @@ Proof.
   intros Hw. unfold deserialize_partial. rewrite complete_pf by exact Hw. unfold lenN. rewrite app_length.
   f_equal. f_equal. lia.
 Qed.
+
+(* ---- String and multisig records --------------------------------------------------------------------------------- *)
+Definition wf_string (b : bytes) : Prop := is_utf8 b = true /\ wf_vec 1 (fun _ => True) b.
+Global Instance complete_string : Complete dec_string enc_string wf_string.
+Proof.
+  intros a r [Hu Hv]. unfold dec_string, enc_string. unfold bind.
+  rewrite (complete_pf (d := dec_bytes_vec)) by exact Hv. now rewrite Hu.
+Qed.
+Lemma dec_string_rejects_invalid b r : is_utf8 b = false -> wf_vec 1 (fun _ => True) b ->
+  fst (dec_string (enc_string b ++ r)) = Err EBad.
+Proof.
+  intros Hu Hv. unfold dec_string, enc_string, bind. rewrite (complete_pf (d := dec_bytes_vec)) by exact Hv. now rewrite Hu.
+Qed.
+
+Definition wf_klrki (m : multisig_klrki) : Prop := wf_key (mk_K m) /\ wf_key (mk_L m) /\ wf_key (mk_R m) /\ wf_key (mk_ki m).
+Global Instance complete_klrki : Complete dec_klrki enc_klrki wf_klrki.
+Proof. intros a r (H1 & H2 & H3 & H4). unfold dec_klrki, enc_klrki, dec_hash. csteps. now destruct a. Qed.
+Global Instance complete_multisig_out : Complete dec_multisig_out enc_multisig_out (wf_vec 32 wf_key).
+Proof. intros a r H. unfold dec_multisig_out, enc_multisig_out. exact (complete_pf (d := dec_vec 32 dec_hash) a r H). Qed.
